@@ -798,7 +798,19 @@ func (c *EvalCtx) call(v *ECall) TV {
 		// received(ch): a value was received from channel ch on this path (ghost, path-sensitive)
 		need(1)
 		ch := c.termOf(c.eval(v.Args[0]))
-		return tvTerm(BoolLit(c.state().recvd[ch.String()]))
+		if c.state().recvd[ch.String()] {
+			return tvTerm(True)
+		}
+		var alts []*Term
+		for _, r := range c.state().recvdT {
+			if r.Sort == ch.Sort {
+				alts = append(alts, Eq(r, ch))
+			}
+		}
+		if len(alts) == 0 {
+			return tvTerm(False)
+		}
+		return tvTerm(Or(alts...))
 	case "seen":
 		// seen(k): the visited-set of the map range loop at the current loop header
 		it := c.rangeIter()
